@@ -20,7 +20,8 @@ type omap struct {
 }
 
 // map-order exploration (DESIGN 2.4): ranges over maps whose key type matches mapOrderFilter
-// may be perturbed, at most mapOrderBudget times per path, to any permutation (n <= 4).
+// may be perturbed, at most mapOrderBudget times per path, to any permutation (n <= 4) or to the
+// reverse or a rotation of the insertion order (4 < n <= 12).
 var mapOrderFilter string
 var mapOrderBudget = 1
 
@@ -52,7 +53,7 @@ func rangeOrder(m *omap) []value {
 	keys := append([]value{}, m.keys...)
 	n := len(keys)
 	p := curPath()
-	if mapOrderFilter == "" || p == nil || n < 2 || n > 4 || m.kt == nil || p.perturbed >= mapOrderBudget || theExplorer.summary != nil {
+	if mapOrderFilter == "" || p == nil || n < 2 || n > 12 || m.kt == nil || p.perturbed >= mapOrderBudget || theExplorer.summary != nil {
 		return keys
 	}
 	match := false
@@ -72,6 +73,11 @@ func rangeOrder(m *omap) []value {
 	for i := 2; i <= n; i++ {
 		fact *= i
 	}
+	if n > 4 {
+		// larger maps: insertion order, its reverse (flips the relative order of every pair of
+		// entries) and a rotation by one - not all n! orders
+		fact = 3
+	}
 	// which permutation the runtime picks for this range event is a free symbolic choice
 	// (DESIGN 2.4); at most mapOrderBudget events per path deviate from insertion order
 	v := p.fresh("ord", big.NewInt(0), big.NewInt(int64(fact-1)))
@@ -88,6 +94,17 @@ func rangeOrder(m *omap) []value {
 	}
 	if val > 0 {
 		p.perturbed++
+	}
+	if n > 4 {
+		switch val {
+		case 1:
+			for i, j := 0, n-1; i < j; i, j = i+1, j-1 {
+				keys[i], keys[j] = keys[j], keys[i]
+			}
+		case 2:
+			keys = append(keys[1:], keys[0])
+		}
+		return keys
 	}
 	return permute(keys, val)
 }
